@@ -159,7 +159,139 @@ let handle cmd args = match cmd, args with
   | "ent_enc", [i; g] -> "OK " ^ hex_of_bytes (serialize_entity { e_index = n_of_hex i; e_gen = n_of_hex g })
   | _ -> "UNKNOWN"
 
+(* ------------------------------------------------------------------ Layer 1: sim mode *)
+let dec x = string_of_int (int_of_n x)
+let n_of_dec s = n_of_int (int_of_string s)
+let joinl l = if l = [] then "-" else String.concat ";" l
+
+let sval = function VNat n -> dec n | VRef e -> "r" ^ dec e
+let scomps cs = String.concat "+" (List.map (fun (k, v) -> dec k ^ "=" ^ sval v) cs)
+
+let print_update slot (u : update_msg) =
+  Printf.printf "upd %s t=%s map=%s des=%s rem=%s chg=%s\n" (dec slot) (dec u.u_tick)
+    (joinl (List.map (fun (s, pc) -> dec s ^ ">p" ^ dec pc) u.u_maps))
+    (joinl (List.map dec u.u_despawns))
+    (joinl (List.map (fun (e, ks) -> dec e ^ ":" ^ String.concat "+" (List.map dec ks)) u.u_removals))
+    (joinl (List.map (fun (e, cs) -> dec e ^ ":" ^ scomps cs) u.u_changes))
+
+let print_mutate track slot (m : mutate_msg) =
+  Printf.printf "mut %s i=%s u=%s t=%s n=%s body=%s\n" (dec slot) (dec m.m_idx) (dec m.m_upd_tick) (dec m.m_tick)
+    (if track then dec m.m_count else "-")
+    (joinl (List.map (fun (e, cs) -> dec e ^ ":" ^ scomps cs) m.m_body))
+
+let ent_string with_id (ev : ent_view) =
+  if not ev.ev_alive then (if with_id then dec ev.ev_server else "") ^ "dead" else
+  let comps = String.concat "+" (List.map (fun (k, ((isref, target), n)) ->
+    dec k ^ "=" ^ (if isref then (match target with Some s -> "r" ^ dec s | None -> "r?") else dec n)) ev.ev_comps) in
+  Printf.sprintf "%s%s:m%s:h%s:%s" (if with_id then dec ev.ev_server else "")
+    (match ev.ev_pre with Some p -> "p" ^ dec p | None -> "")
+    (if ev.ev_marker then "1" else "0")
+    (match ev.ev_hist with Some (l, m) -> dec l ^ "/" ^ hex_of_n m | None -> "-")
+    comps
+
+let print_cview slot (v : cview) =
+  Printf.printf "cli %s ut=%s ok=%s ents=%s extra=%s mt=%s\n" (dec slot) (dec v.cv_upd_tick)
+    (if v.cv_consistent then "1" else "0")
+    (joinl (List.map (ent_string true) v.cv_ents))
+    (joinl (List.sort compare (List.map (ent_string false) v.cv_extra)))
+    (match v.cv_mticks with Some (l, m) -> dec l ^ "/" ^ hex_of_n m | None -> "-")
+
+let parse_val k s = if k = 3 then VRef (n_of_dec (String.sub s 1 (String.length s - 1))) else VNat (n_of_dec s)
+let parse_kv s = match String.split_on_char '=' s with
+  | [k; v] -> let k = int_of_string k in (n_of_int k, parse_val k v) | _ -> failwith "kv"
+
+let parse_sop = function
+  | "spawn" :: e :: m :: comps -> Some (SSpawn (n_of_dec e, m = "1", List.map parse_kv comps))
+  | ["despawn"; e] -> Some (SDespawn (n_of_dec e))
+  | ["insert"; e; kv] -> let (k, v) = parse_kv kv in Some (SInsert (n_of_dec e, k, v))
+  | ["mutate"; e; kv] -> let (k, v) = parse_kv kv in Some (SMutate (n_of_dec e, k, v))
+  | ["remove"; e; k] -> Some (SRemove (n_of_dec e, n_of_dec k))
+  | ["mark"; e] -> Some (SMark (n_of_dec e))
+  | ["unmark"; e] -> Some (SUnmark (n_of_dec e))
+  | ["vis"; c; e; b] -> Some (SVis (n_of_dec c, n_of_dec e, b = "1"))
+  | ["map"; c; e; pc] -> Some (SMap (n_of_dec c, n_of_dec e, n_of_dec pc))
+  | _ -> None
+
+let parse_which = function "first" -> First | "last" -> Last | _ -> All
+
+let sim_main () =
+  let sys = ref None in
+  let track = ref false in
+  let sops = ref [] and cops = Hashtbl.create 4 and parts = ref [] in
+  let dead = ref false in
+  let do_step st =
+    match !sys with
+    | None -> ()
+    | Some y ->
+      if !dead then print_endline "dead model" else
+      (match sys_step y st with
+       | Ok (y', o) ->
+         sys := Some y';
+         (match o with
+          | ONone -> ()
+          | OSFrame (fo, views) ->
+            Printf.printf "srv tick=%s ran=%s\n" (dec fo.fo_tick) (if fo.fo_ran then "1" else "0");
+            List.iter (fun (co : client_out) ->
+              if co.co_bad_partition then Printf.printf "bad-partition %s\n" (dec co.co_slot);
+              (match co.co_update with Some u -> print_update co.co_slot u | None -> ());
+              List.iter (print_mutate !track co.co_slot) co.co_mutates)
+              (List.sort (fun (a : client_out) (b : client_out) -> compare (int_of_n a.co_slot) (int_of_n b.co_slot)) fo.fo_clients);
+            List.iter (fun (slot, ents) ->
+              Printf.printf "view %s %s\n" (dec slot) (joinl (List.map (fun (e, cs) -> dec e ^ ":" ^ scomps cs) ents)))
+              (List.sort (fun (a, _) (b, _) -> compare (int_of_n a) (int_of_n b)) views)
+          | OCFrame (slot, cfo, v) ->
+            if cfo.cfo_acks <> [] then Printf.printf "ack %s %s\n" (dec slot) (String.concat "," (List.map dec cfo.cfo_acks));
+            if cfo.cfo_tick_events <> [] then Printf.printf "tickrecv %s %s\n" (dec slot) (String.concat "," (List.map dec cfo.cfo_tick_events));
+            print_cview slot v
+          | OPanic -> print_endline "PANIC model")
+       | Err -> dead := true; print_endline "ERR model"
+       | Panic -> dead := true; print_endline "PANIC model") in
+  (try while true do
+    let line = String.trim (input_line stdin) in
+    if line = "" || line.[0] = '#' then () else begin
+      let t = List.filter (fun s -> s <> "") (String.split_on_char ' ' line) in
+      let dot = ref true in
+      (match t with
+       | "cfg" :: kvs ->
+         let get k d = List.fold_left (fun acc kv -> match String.split_on_char '=' kv with
+           | [k'; v] when k' = k -> v | _ -> acc) d kvs in
+         let policy = (match get "policy" "all" with "black" -> PBlack | "white" -> PWhite | _ -> PAll) in
+         let auth = (match get "auth" "none" with "custom" -> AuthCustom | "proto" -> AuthProto | _ -> AuthNone) in
+         track := (get "track" "0" = "1");
+         let c = { cfg_policy = policy; cfg_auth = auth; cfg_track = !track; cfg_timeout = n_of_dec (get "timeout" "10000") } in
+         sys := Some (sys_init c (n_of_dec (get "nclients" "1")));
+         dead := false; sops := []; Hashtbl.reset cops; parts := [];
+         print_endline "scenario"
+       | ["part"; c; spec] ->
+         let p = if spec = "-" then [[]] else
+           List.map (fun m -> List.map n_of_dec (String.split_on_char ',' m)) (String.split_on_char '|' spec) in
+         parts := (n_of_dec c, p) :: !parts; dot := false
+       | "sop" :: rest -> (match parse_sop rest with Some op -> sops := op :: !sops | None -> ())
+       | ["cop"; c; "prespawn"; pc] -> Hashtbl.replace cops c (CPrespawn (n_of_dec pc) :: (try Hashtbl.find cops c with Not_found -> []))
+       | ["cop"; c; "despawn"; pc] -> Hashtbl.replace cops c (CDespawn (n_of_dec pc) :: (try Hashtbl.find cops c with Not_found -> []))
+       | "sframe" :: tick :: rest ->
+         let dt = (match rest with d :: _ -> n_of_dec d | [] -> N0) in
+         let ops = List.rev !sops and ps = List.rev !parts in
+         sops := []; parts := [];
+         do_step (StSFrame (tick = "1", dt, false, ops, ps))
+       | ["cframe"; c] ->
+         let ops = List.rev (try Hashtbl.find cops c with Not_found -> []) in
+         Hashtbl.remove cops c;
+         do_step (StCFrame (n_of_dec c, ops))
+       | ["start"] -> do_step StStart
+       | ["stop"] -> do_step StStop
+       | ["connect"; c; m] -> do_step (StConnect (n_of_dec c, n_of_dec m))
+       | ["authorize"; c] -> do_step (StAuthorize (n_of_dec c))
+       | ["disconnect"; c] -> do_step (StDisconnect (n_of_dec c))
+       | ["deliver"; c; dir; ch; w] -> do_step (StDeliver (n_of_dec c, dir = "s2c", n_of_dec ch, parse_which w))
+       | ["drop"; c; dir; ch; w] -> do_step (StDrop (n_of_dec c, dir = "s2c", n_of_dec ch, parse_which w))
+       | _ -> print_endline ("unknown-step " ^ List.hd t));
+      if !dot then print_endline "."
+    end
+  done with End_of_file -> ())
+
 let () =
+  if Array.length Sys.argv > 1 && Sys.argv.(1) = "sim" then sim_main () else
   try while true do
     let line = input_line stdin in
     let toks = List.filter (fun s -> s <> "") (String.split_on_char ' ' line) in
